@@ -739,6 +739,60 @@ func runC10(args []string) int {
 			r.sample(map[string]interface{}{"files": n, "bytes": len(in.data), "trailing": len(in.trailing), "corrupted_offset": in.corrupt})
 		}
 	}
+	// aimed chains: a file that SETS decoder state a later file could pick up (time reference, definitions on all 16
+	// local types, compressed offsets) followed by files that would USE such state if it leaked across the file
+	// boundary (compressed-timestamp records and local timestamps before any timestamp of their own)
+	{
+		mk := func(needs bool) *vfile {
+			be := rg.bool()
+			arch := byte(0)
+			if be {
+				arch = 1
+			}
+			s := &stream{HdrSize: 14, Proto: 0x20, Profile: 2115, HdrCRC: "ok"}
+			s.Records = append(s.Records,
+				record{Kind: "D", Local: 5, Gmn: 0, Fields: []fieldDefS{{0, 1, 0}}},
+				record{Kind: "M", Local: 5, Pay: []byte{4}},
+				record{Kind: "D", Local: 0, Arch: arch, Gmn: uint16(fit.MesgNumRecord), Fields: []fieldDefS{{253, 4, 0x86}, {3, 1, 2}}},
+				record{Kind: "D", Local: 1, Arch: arch, Gmn: uint16(fit.MesgNumRecord), Fields: []fieldDefS{{3, 1, 2}}},
+				record{Kind: "D", Local: 3, Arch: arch, Gmn: uint16(fit.MesgNumActivity), Fields: []fieldDefS{{5, 4, 0x86}}})
+			ts := uint32(0x30000000 + rg.intn(1<<24))
+			explicit := record{Kind: "M", Local: 0, Pay: append(put32(be, ts), byte(rg.intn(200)))}
+			if !needs {
+				s.Records = append(s.Records, explicit)
+			}
+			for k, n := 0, 1+rg.intn(4); k < n; k++ {
+				s.Records = append(s.Records, record{Kind: "Z", Local: 1, Offset: byte(rg.intn(32)), Pay: []byte{byte(rg.intn(200))}})
+			}
+			s.Records = append(s.Records, record{Kind: "M", Local: 3, Pay: put32(be, ts+uint32(rg.intn(7200)))})
+			if needs && rg.bool() {
+				s.Records = append(s.Records, explicit, record{Kind: "Z", Local: 1, Offset: byte(rg.intn(32)), Pay: []byte{7}})
+			}
+			s.fillHex()
+			v, _, _, err := soloDecode(r, w, s.bytes(), "aimed-state", s, true)
+			if err != nil {
+				return nil
+			}
+			return v
+		}
+		for k := 0; k < 8; k++ {
+			var files []*vfile
+			for _, needs := range [][]bool{{false, true}, {false, true, true}, {true, false, true}, {false, false, true}}[k%4] {
+				if v := mk(needs); v != nil {
+					files = append(files, v)
+				}
+			}
+			if len(files) < 2 {
+				continue
+			}
+			in := &ioInput{files: files, corrupt: -1, model: true}
+			in.build()
+			if !c.runInput(in, fams) {
+				return 2
+			}
+			r.hist("inputs_aimed_state_leak_chain")
+		}
+	}
 	phase("lock-step inputs done")
 	// huge announced data sizes (high bytes of the size field corrupted), implementation only
 	for k := 0; k < sizes(o.tier, o.boost, 60, 2000); k++ {
